@@ -28,6 +28,10 @@ class Ctx:
         self.scratch = None
         self._known = load_known_findings().get(prop, [])
         self.bindir = None
+        import glob as _glob
+        for old in _glob.glob(os.path.join(VERIF, 'evidence', 'replay', '%s-*.json' % prop)):
+            if not replay or os.path.abspath(replay) != old:
+                os.unlink(old)
 
     # ---- scratch space (outside /repo, /verif and /tmp-for-registered-commands) ----
     def scratch_dir(self):
